@@ -172,6 +172,19 @@ def run_vdrive(work, name, cases, shards=NCPU, timeout_ms=30000):
             extra = ""
             if r.returncode == 0:
                 return
+            # the process may have died (abort in the code under test, on another thread) while a
+            # record was being written: cut a trailing partial line before the next run appends
+            for suf in ("dumps", "errs", "traces"):
+                fp = "%s.%s.ndjson" % (pre, suf)
+                try:
+                    with open(fp, "rb+") as f:
+                        data = f.read()
+                        if data and not data.endswith(b"\n"):
+                            cut = data.rfind(b"\n") + 1
+                            f.truncate(cut)
+                            log("cut a partial record (%d bytes) from %s" % (len(data) - cut, os.path.basename(fp)))
+                except OSError:
+                    pass
             restarts += 1
             if restarts > 200:
                 raise ToolError("vdrive keeps crashing: " + r.stderr[-300:])
